@@ -165,25 +165,53 @@ def protoReads (p : Proto) (v : Bytes) : Bool :=
   | .ts => (readTs v).isOk
   | .float => acceptFloat v
 
-/-- validateField -/
-def validateField (d : VDict) (s : Settings) (f : TV) : V Unit :=
+/-- `bytes.Split(value, " ")` -/
+def splitOn32 : Bytes → Bytes → List Bytes
+  | [], cur => [cur.reverse]
+  | c :: r, cur => if c = 32 then cur.reverse :: splitOn32 r [] else splitOn32 r (c :: cur)
+
+/-- the enumeration check of validateField (after the `fix:`): the whole value is declared, or the field has a
+    multiple-value type and every space separated token is declared -/
+def enumOK (ft : FType) (v : Bytes) : Bool :=
+  ft.enums.isEmpty || ft.enums.contains v || (ft.multi && (splitOn32 v []).all (fun tok => ft.enums.contains tok))
+
+/-- the enumeration check on the unchanged tree (D13): one token -/
+def enumOKOrig (ft : FType) (v : Bytes) : Bool := ft.enums.isEmpty || ft.enums.contains v
+
+/-- validateField, parametrised by the enumeration check -/
+def validateFieldWith (ok : FType → Bytes → Bool) (d : VDict) (s : Settings) (f : TV) : V Unit :=
   if f.value.isEmpty then rej 4 f.tag
   else
     match d.ftype f.tag with
     | none => if !checkFieldNotDefined s f.tag then rej 0 f.tag else .ok ()
     | some ft =>
-      if !ft.enums.isEmpty && !ft.enums.contains f.value then rej 5 f.tag
+      if !ok ft f.value then rej 5 f.tag
       else
         match ft.proto with
         | none => .error .panic
         | some p => if protoReads p f.value then .ok () else rej 6 f.tag
 
-/-- validateFields -/
+/-- validateField (fixed tree) -/
+def validateField (d : VDict) (s : Settings) (f : TV) : V Unit := validateFieldWith enumOK d s f
+
+/-- validateField on the unchanged tree (D13) -/
+def validateFieldOrig (d : VDict) (s : Settings) (f : TV) : V Unit := validateFieldWith enumOKOrig d s f
+
+/-- validateFields (after the `fix:` — MsgType (35) is validateMsgType's business, not the transport enumeration's) -/
 def validateFields (tr app : VDict) (s : Settings) : List TV → V Unit
   | [] => .ok ()
+  | f :: rest =>
+    if f.tag = 35 then validateFields tr app s rest
+    else do
+      validateField (if isHeaderTag f.tag || isTrailerTag f.tag then tr else app) s f
+      validateFields tr app s rest
+
+/-- validateFields on the unchanged tree: 35 is checked against the transport dictionary like any header field, D13 check -/
+def validateFieldsOrig (tr app : VDict) (s : Settings) : List TV → V Unit
+  | [] => .ok ()
   | f :: rest => do
-    validateField (if isHeaderTag f.tag || isTrailerTag f.tag then tr else app) s f
-    validateFields tr app s rest
+    validateFieldOrig (if isHeaderTag f.tag || isTrailerTag f.tag then tr else app) s f
+    validateFieldsOrig tr app s rest
 
 /-- `int(numInGroup)` after `numInGroup.Read(value)` -/
 def readCount (v : Bytes) : Option Int :=
@@ -192,44 +220,55 @@ def readCount (v : Bytes) : Option Int :=
   | _ => none
 
 mutual
-/-- validateVisitField: returns the remaining fields -/
-def visitField : Nat → FDef → List TV → V (List TV)
+/-- validateVisitField: returns the remaining fields.  `tc`: the `fix:` that checks the members not yet reached when the
+    delimiter of the next entry restarts the member list (`tc = false` is the unchanged tree) -/
+def visitFieldW (tc : Bool) : Nat → FDef → List TV → V (List TV)
   | 0, _, _ => .error .fuelOut
   | fuel + 1, fd, stack =>
-    if fd.isGroup then visitGroup fuel fd stack
+    if fd.isGroup then visitGroupW tc fuel fd stack
     else .ok (stack.drop 1)
 
 /-- validateVisitGroupField -/
-def visitGroup : Nat → FDef → List TV → V (List TV)
+def visitGroupW (tc : Bool) : Nat → FDef → List TV → V (List TV)
   | 0, _, _ => .error .fuelOut
   | _ + 1, _, [] => .error .panic                      -- fieldStack[0] of an empty slice (unreachable from validateWalk)
   | fuel + 1, fd, cnt :: stack =>
     match readCount cnt.value with
     | none => rej 6 cnt.tag
     | some n =>
-      match groupLoop fuel fd stack [] 0 with
+      match groupLoopW tc fuel fd stack [] 0 with
       | .error e => .error e
       | .ok (stack', count) =>
         if (count : Int) ≠ n then rej 16 cnt.tag else .ok stack'
 
 /-- the `for len(fieldStack) > 0` loop: remaining child definitions, entries seen so far -/
-def groupLoop : Nat → FDef → List TV → List FDef → Nat → V (List TV × Nat)
+def groupLoopW (tc : Bool) : Nat → FDef → List TV → List FDef → Nat → V (List TV × Nat)
   | 0, _, _, _, _ => .error .fuelOut
   | _ + 1, _, [], _, count => .ok ([], count)
   | fuel + 1, fd, f :: stack, childDefs, count =>
     let start := match fd.fields with | d :: _ => f.tag == d.tag | [] => false
-    let childDefs := if start then fd.fields else childDefs
-    let count := if start then count + 1 else count
-    match childDefs with
-    | [] => .ok (f :: stack, count)                     -- group complete
-    | c :: cs =>
-      if f.tag == c.tag then
-        match visitField fuel c (f :: stack) with
-        | .error e => .error e
-        | .ok stack' => groupLoop fuel fd stack' cs count
-      else if c.req then rej 1 c.tag
-      else groupLoop fuel fd (f :: stack) cs count
+    match (if start && tc then childDefs.find? (·.req) else none) with
+    | some c => rej 1 c.tag                             -- a required member of the previous entry was not reached
+    | none =>
+      let childDefs := if start then fd.fields else childDefs
+      let count := if start then count + 1 else count
+      match childDefs with
+      | [] => .ok (f :: stack, count)                     -- group complete
+      | c :: cs =>
+        if f.tag == c.tag then
+          match visitFieldW tc fuel c (f :: stack) with
+          | .error e => .error e
+          | .ok stack' => groupLoopW tc fuel fd stack' cs count
+        else if c.req then rej 1 c.tag
+        else groupLoopW tc fuel fd (f :: stack) cs count
 end
+
+/-- the walk of the fixed tree -/
+abbrev visitField := visitFieldW true
+abbrev visitGroup := visitGroupW true
+abbrev groupLoop := groupLoopW true
+/-- the walk of the unchanged tree -/
+abbrev visitFieldOrig := visitFieldW false
 
 /-- validateWalk's loop -/
 def walkLoop (tr app : VDict) (s : Settings) (body : MDef) : Nat → List TV → List Nat → V Unit
